@@ -526,6 +526,7 @@ func runC20(c *Check) {
 			an := an
 			napp++
 			okGuard := false
+			exactFitRefused := false
 			for _, f := range pg.NecessaryEdges(func(n *Node) bool { return n == an }) {
 				t, pol := normFact(f.Cond, f.Pol)
 				if t.Op != "bin" || len(t.Args) != 2 {
@@ -535,6 +536,10 @@ func runC20(c *Check) {
 				if !fits || t.Args[0].Op != "bin" || t.Args[0].Name != "+" || len(t.Args[0].Args) != 2 {
 					continue
 				}
+				// the queue is the last resort of a transaction that did not fit: one that fills
+				// the batch exactly must be released (size + len == limit is within the limit)
+				strict := t.Name == ">" || t.Name == "<="
+
 				// the term added to the running size is the length of what is released, measured
 				// here — not a size remembered elsewhere (a cached size is only as good as every
 				// place that has to keep it current, including what a restart reloads)
@@ -552,7 +557,15 @@ func runC20(c *Check) {
 				}
 				if lp, ok := t.Args[1].V.(*ssa.Parameter); ok && lp.Parent() == callee {
 					limitParam, okGuard = lp, true
+					if !strict {
+						exactFitRefused = true
+					}
 				}
+			}
+			if okGuard && exactFitRefused {
+				c.Bad("C20-R3", fnShort(callee)+" ⟂ pop-releases-an-exact-fit", fnName(callee), p.InstrPos(an.In), "the carry-over pop refuses a transaction whose length brings the running size exactly to the limit (>= instead of >): a carried-over transaction as large as the requested size is never released, stays at the head of the persisted queue, and — the scan resuming only over an empty queue — nothing behind it is released either, in this run or after a restart", nil)
+			} else if okGuard {
+				c.OK("C20-R3", fnShort(callee)+" ⟂ pop-releases-an-exact-fit", fnName(callee), p.InstrPos(an.In), "a carried-over transaction that fills the batch exactly is released", true)
 			}
 			if okGuard {
 				c.OK("C20-R3", fnShort(callee)+" ⟂ pop-under-size-test", fnName(callee), p.InstrPos(an.In), "a carried-over transaction is released only if the running size plus its length stays within the limit parameter", true)
@@ -602,6 +615,7 @@ func runC20(c *Check) {
 	ruleRetrieveHelper(c, c.Mod(ModRoot), "C20-R8")
 	ruleHelperSequential(c, c.Mod(ModRoot), "C20-R12")
 	rulePersistedFieldsSurvive(c, p, "C20-R13", basedPkg)
+	ruleStoreNotBuffered(c, p, "C20-R14", basedPkg)
 	c.MinInstances("C20-R13", 1)
 	c.MinInstances("C20-R8", 4)
 	c.MinInstances("C20-R1", 1)
